@@ -44,7 +44,7 @@ def vocabulary : List String :=
 /-- client markers known to be pure (no synchronisation content) -/
 def markers : List String :=
   ["call", "ret", "exc", "got", "acq", "hd", "hu", "hmc", "hma", "he", "uth", "ucb", "uce", "final",
-   "req", "alo", "fre", "con", "des", "pct", "pcp", "pdt", "obj", "comp", "note"]
+   "req", "alo", "fre", "con", "des", "pct", "pcp", "pdt", "obj", "comp", "note", "hfree", "prv", "rrv"]
 
 structure AccRec where
   tid : Tid
